@@ -298,3 +298,72 @@ def stub_time(names, clock):
         m = importlib.import_module(n)
         if hasattr(m, "time"):
             m.time = _TimeModule(clock, _time)
+
+
+# ----------------------------------------------------------------------------------
+# SymMat / SymRow carrier (C19): an [N, D] matrix of symbolic reals.  Comparisons return
+# *concrete* numpy bool arrays (each entry decided by a solver fork); all mask logic stays in
+# real numpy.
+# ----------------------------------------------------------------------------------
+class SymRow:
+    def __init__(self, vals):
+        self.vals = list(vals)
+
+    def _cmp(self, other, op):
+        out = _np.zeros((len(other.rows), len(self.vals)), dtype=bool)
+        for i, r in enumerate(other.rows):
+            for j, v in enumerate(r.vals):
+                out[i, j] = True if op(self.vals[j], v) else False
+        return out
+
+    def __le__(self, other):
+        return self._cmp(other, lambda a, b: a <= b)
+
+    def __lt__(self, other):
+        return self._cmp(other, lambda a, b: a < b)
+
+    def __len__(self):
+        return len(self.vals)
+
+    def __iter__(self):
+        return iter(self.vals)
+
+
+class SymMat:
+    def __init__(self, rows):
+        self.rows = [r if isinstance(r, SymRow) else SymRow(r) for r in rows]
+
+    @property
+    def shape(self):
+        return (len(self.rows), len(self.rows[0].vals) if self.rows else 0)
+
+    def __len__(self):
+        return len(self.rows)
+
+    def __iter__(self):
+        return iter(self.rows)
+
+    def __getitem__(self, idx):
+        if isinstance(idx, tuple):
+            r, c = idx
+            assert isinstance(r, slice) and r == slice(None)
+            return SymArr([row.vals[c] for row in self.rows])
+        with NoTracing():
+            idx = _np.asarray(idx)
+        if idx.dtype == bool:
+            return SymMat([r for r, m in zip(self.rows, idx) if m])
+        if idx.ndim == 0:
+            return self.rows[int(idx)]
+        return SymMat([self.rows[int(i)] for i in idx])
+
+    def __mul__(self, w):
+        w = _np.asarray(w)
+        if w.ndim == 2:
+            w = w[0]
+        d = self.shape[1]
+        ws = [float(w[j % len(w)]) if len(w) > 1 else float(w[0]) for j in range(d)]
+        return SymMat([[v * ws[j] for j, v in enumerate(r.vals)] for r in self.rows])
+
+    def mean(self, axis=-1):
+        assert axis in (-1, 1)
+        return SymArr([sum(r.vals) / len(r.vals) for r in self.rows])
